@@ -535,8 +535,8 @@ def main():
         "coverage": {
             "obligations": max(n_thm, 1) if not po["failed"] else max(n_thm, 1) + len(po["failed"]),
             "discharged": ok_thm if not po["failed"] else max(ok_thm - 0, 0),
-            "checker_cmd": f"cd /verif/lean && lake build EnrVerif.Props.{prop} && lake env lean /verif/out/{prop}/Audit.lean"
-                           + (f" && lake env leanchecker EnrVerif.Props.{prop}" if tier == "thorough" else ""),
+            "checker_cmd": f"cd /verif/lean && lake build {' '.join(po.get('modules') or ['EnrVerif.Props.' + prop])} && lake env lean /verif/out/{prop}/Audit.lean"
+                           + (f" && lake env leanchecker {' '.join(po.get('modules') or ['EnrVerif.Props.' + prop])}" if tier == "thorough" else ""),
             "trusted_base": [
                 "Lean 4.33 kernel" + (" + leanchecker re-check" if tier == "thorough" else ""),
                 "axioms: subset of {propext, Classical.choice, Quot.sound} (audited per theorem with #print axioms)",
